@@ -80,8 +80,8 @@ var currentTier = "quick"
 
 var boundedCasesRe =regexp.MustCompile(`BOUNDED cases=(\d+) failures=(\d+)`)
 
-func runBounded(sp *BoundedSpec) boundedResult {
-	res := boundedResult{Name: sp.Name, Bound: sp.Bound}
+func runBounded(sp *BoundedSpec) (res boundedResult) {
+	res = boundedResult{Name: sp.Name, Bound: sp.Bound}
 	t0 := time.Now()
 	defer func() { res.Seconds = time.Since(t0).Seconds() }()
 	if _, err := os.Stat(sp.File); err != nil {
